@@ -128,6 +128,9 @@ def main():
                                                                  alone=d[k] if k < len(d) else "END", concurrent=ev[k] if k < len(ev) else "END"))
                         if c["nprof"] != solo["nprof"]:
                             verdict.report("C16.prof", trig, dict(case, alone=solo["nprof"], concurrent=c["nprof"]))
+                        elif c.get("prof") != solo.get("prof"):
+                            # the profile records (names carry the per-thread task / item counters) are this thread's own
+                            verdict.report("C16.prof", trig, dict(case, alone=solo.get("prof", [])[:6], concurrent=c.get("prof", [])[:6]))
                         traces.append({"id": len(traces), "prog": job["progs"][h], "events": c["events"], "case": case, "trig": trig})
         v, st = pipeline.validate(traces, sc)
         nobs = 0
